@@ -22,7 +22,7 @@ const FN_NAMES: &[&str] = &[
 ];
 const MOD_NAMES: &[&str] =
     &["m", "m1", "m2", "m10", "util", "inner", "r#mod", "r#loop", "r#match", "r#type", "a", "bench", "zz", "ö", "Up"];
-const DISPLAY: &[&str] = &["Custom", "custom name", "1", "02", "Ünï", "a::b", "x<y>", "bench", "r#raw", "q\"uote"];
+const DISPLAY: &[&str] = &["Custom", "custom name", "1", "02", "Ünï", "a::b", "x<y>", "bench", "r#raw", "q\"uote", "a,b"];
 /// (names, allowed argument kinds)
 const ARG_LISTS: &[(&[&str], &str)] = &[
     (&["0", "1", "2"], "i"),
@@ -35,6 +35,7 @@ const ARG_LISTS: &[(&[&str], &str)] = &[
     (&[""], "sS"),
     (&["é", "z", "日本"], "sSd"),
     (&["1", "1000", "100", "10"], "is"),
+    (&["(1, 2)", "(1, 3)", "(2, 2)"], "sSd"),
 ];
 
 fn type_table(root: &str) -> Vec<(&'static str, String)> {
